@@ -220,6 +220,17 @@ def _unique_name(params: Any) -> str:
     # Boolean indication of whether *all* param-datatypes are from among these
     all_scalar = all([param.dtype in scalars for param in params.__params__.values()])
 
+    # String values which would make the readable format ambiguous,
+    # e.g. `(a="x b=y", b="z")` vs `(a="x", b="y b=z")`, or `"None"` vs `None`.
+    # Anything but plain words goes through the hashing method below instead.
+    def ambiguous(val: Any) -> bool:
+        if not isinstance(val, str):
+            return False
+        return val == "None" or not all(c.isalnum() or c in "_.+-" for c in val)
+
+    if all_scalar:
+        all_scalar = not any(ambiguous(getattr(params, k)) for k in params.__params__)
+
     # If all params are scalars, create a readable string of their values
     if all_scalar:
         # Format: `pname1=pval1 pname2=pval2 pname3=pval3`
